@@ -91,7 +91,8 @@ class _Table:
         return iter(enumerate(self.rows))
 
 
-def _run(rm, pops, ratios, sel):
+def _run(rm, pops, ratios, sel, before=None):
+    """one call of run_model_no_trade; with `before`, an earlier call with that selection is made on the SAME runner object first (run_many_options does that)"""
     rows = [dict(iso3=c, country=NAMES[c], population=pops[c]) for c in CODES]
     calls = []
 
@@ -111,8 +112,13 @@ def _run(rm, pops, ratios, sel):
     ident = lambda x, *a: x if isinstance(x, SymReal) else float(x)
     rnd = lambda x, n=None: x if isinstance(x, SymReal) else round(x, n)
     with patched(rm, extra={(rm, "pd"): fake_pd, (rm, "gpd"): fake_gpd, (rm, "float"): ident, (rm, "round"): rnd}), contextlib.redirect_stdout(io.StringIO()):
-        out = Runner().run_model_no_trade(title="vp_c15", create_pptx_with_all_countries=False, show_country_figures=False, show_map_figures=False, add_map_slide_to_pptx=False,
-                                          scenario_option={"any": 1}, countries_list=list(sel), return_results=True)
+        runner = Runner()
+        if before is not None:
+            runner.run_model_no_trade(title="vp_c15_earlier", create_pptx_with_all_countries=False, show_country_figures=False, show_map_figures=False, add_map_slide_to_pptx=False,
+                                      scenario_option={"any": 1}, countries_list=list(before), return_results=True)
+            del calls[:]
+        out = runner.run_model_no_trade(title="vp_c15", create_pptx_with_all_countries=False, show_country_figures=False, show_map_figures=False, add_map_slide_to_pptx=False,
+                                        scenario_option={"any": 1}, countries_list=list(sel), return_results=True)
     return out, calls
 
 
@@ -131,7 +137,7 @@ def worker_aggregate(case, seed):
             E.assume(ratios[c] >= 0)
             E.assume(ratios[c] <= 50)
         before = list(sel)
-        (world, net_pop, net_fed, results), calls = _run(rm, pops, ratios, sel)
+        (world, net_pop, net_fed, results), calls = _run(rm, pops, ratios, sel, before=case.get("before"))
         chosen = _selected(before)
         E.check("the optimiser ran exactly once for exactly the selected countries", calls == chosen, info="%s vs %s" % (calls, chosen))
         E.check("every selected country appears exactly once in the results", sorted(results.keys()) == sorted(NAMES[c] for c in chosen) and all(results[NAMES[c]] == "result of " + c for c in chosen))
@@ -156,7 +162,7 @@ def replay_aggregate(case, cx):
     m = vlib.model_floats(cx["model"])
     pops = {c: m.get("population_" + c, 20000.0) for c in CODES}
     ratios = {c: m.get("fed_ratio_" + c, 0.5) for c in CODES}
-    (world, net_pop, net_fed, results), calls = _run(rm, pops, ratios, case["sel"])
+    (world, net_pop, net_fed, results), calls = _run(rm, pops, ratios, case["sel"], before=case.get("before"))
     chosen = _selected(case["sel"])
     bad = []
     if calls != chosen:
@@ -204,8 +210,8 @@ def main(tier, seed, only=None):
     sels = [[]] + [list(t) for n in (1, 2, 3) for t in itertools.product(entries, repeat=n)]
     if not thorough:
         sels = [s for s in sels if len(s) <= 2] + [["AAA", "BBB", "CCC"], ["!AAA", "!BBB", "!CCC"], ["AAA", "!BBB", "CCC"], ["!AAA", "AAA", "!CCC"], ["BBB", "BBB", "BBB"], ["!CCC", "!CCC", "AAA"]]
-    groups = [dict(name="aggregate_over_selection", fn="worker_aggregate", cases=[dict(sel=s) for s in sels], replay=replay_aggregate,
-                   functions=["ScenarioRunnerNoTrade.run_model_no_trade", "get_countries_to_run_and_skip", "fill_data_for_map"], bounds="3-row table; %d selection lists over {A,B,C,!A,!B,!C} (all lists of <= 2 entries, thorough all of <= 3)" % len(sels),
+    groups = [dict(name="aggregate_over_selection", fn="worker_aggregate", cases=[dict(sel=s) for s in sels] + [dict(sel=s, before=b) for s, b in ((["AAA"], ["BBB", "CCC"]), ([], ["CCC"]), (["!AAA"], []), (["BBB", "!CCC"], ["AAA"]), (["CCC"], ["CCC"]))], replay=replay_aggregate,
+                   functions=["ScenarioRunnerNoTrade.run_model_no_trade", "get_countries_to_run_and_skip", "fill_data_for_map"], bounds="3-row table; %d selection lists over {A,B,C,!A,!B,!C} (all lists of <= 2 entries, thorough all of <= 3); 5 histories of two calls on the same runner object" % len(sels),
                    symbolic="the three populations (10^4..10^10) and the three per-country fed ratios (0..50)", assumptions=["per-country data checks pass (stubbed)", "the per-country optimiser returns a finite ratio"],
                    stubs=STUBS[:2] + ["pd.read_csv -> 3-row table object", "gpd.read_file -> stub", "verify_country_data / apply_custom_parameters -> no-ops", "the map table is a 3-row stand-in (two of the three countries are on the map, one is not); the real fill_data_for_map runs against it", "run_optimizer_for_country -> symbolic ratio",
                                       "float()/round() in run_model_no_trade shadowed to keep symbolic values (only the printed fraction uses them)"], outside=["the real 164-row table", "NaN ratios (error path)"])]
